@@ -103,6 +103,7 @@ type Interp struct {
 	fpInt    map[*Term]*Term
 	fpDiv    map[*Term]map[uint64]*Term
 	fpLazy   map[*Term]*Term
+	digitSum map[*Term]*Term
 	gsm7Text map[*Object]view
 	atoiMap  map[*Term][]*Term
 	fmtTimeVals map[*Object]*Term
